@@ -245,6 +245,16 @@ def finalize(out: Outcome):
                 f['witness'], f['wlog'] = witness.run_witness(d, extra_inputs=f.get('cex_inputs', ()), features=f.get('features', ()))
             except Exception as e:
                 f['witness'], f['wlog'] = None, 'witness search error: %r' % e
+    # the verifier's own counterexample for (up to 3) failing Kani harnesses
+    ncex = 0
+    for f in reps:
+        if f.get('backend') == 'kani' and f.get('kani_harness') and ncex < 3:
+            try:
+                from vf import kani_side
+                f['cex'] = kani_side.kani_counterexample(f['kani_crate'], f['kani_harness'])
+            except Exception as e:
+                f['cex'] = None
+            ncex += 1
     lines = 0
     for f in ordered + rest:
         key = f['key']
@@ -262,7 +272,7 @@ def finalize(out: Outcome):
             'declaration': d.source() if d is not None else f.get('declaration', ''),
             'decl_id': d.id if d is not None else None,
             'verifier_message': f.get('message'), 'verifier_output': f.get('detail', '')[:6000],
-            'counterexample': f.get('cex'),
+            'counterexample (Kani concrete playback: the values of the kani::any() calls in order)': f.get('cex'),
             'witnesses_against_real_code': (wit or [])[:5],
             'witness_log': (f.get('wlog') or '')[-1500:] if not wit else '',
             'replay_cmd': './check --replay <this file>',
